@@ -101,6 +101,16 @@ class PolySpec:
 def _declare(comp, spec, style):
     pat = spec.pattern()
     for (o, v), nz in pat.items():
+        if isinstance(style, str) and style.startswith('approx:'):
+            # partials approximated by the framework: approx:<method>:<form>:<step_calc>:<step>
+            _, method, form, step_calc, step = style.split(':')
+            kw = dict(method=method)
+            if method == 'fd':
+                kw.update(form=form, step_calc=step_calc, step=float(step))
+            else:
+                kw.update(step=float(step))
+            comp.declare_partials(o, v, **kw)
+            continue
         if style == 'const':
             # linear components only: constant partials declared once with rows/cols/val and never set again
             P = spec.partials({n: np.ones(m['shape']) for n, m in list(spec.ins.items()) + list(spec.outs.items())})
@@ -145,7 +155,7 @@ def _storage_order(M):
 
 
 def _fill(comp, spec, style, vals, J, xp):
-    if style == 'const':
+    if style == 'const' or (isinstance(style, str) and style.startswith('approx:')):
         return
     P = spec.partials(vals)
     if style in ('sp_coo', 'sp_csr', 'sp_csc'):
